@@ -36,14 +36,24 @@ _BUILTIN_TYPE_MAP = {
 }
 
 
-def _get_annotation_from_type(typ) -> code_ir.CodegenNode:
+def _any_annotation(
+    import_manager: import_manager_lib.ImportManager,
+) -> code_ir.CodegenNode:
+  """Returns a reference to `typing.Any`, adding `from typing import Any`."""
+  return code_ir.BuiltinReference(
+      code_ir.Name(import_manager.add_by_name("typing.Any"))
+  )
+
+
+def _get_annotation_from_type(
+    typ, import_manager: import_manager_lib.ImportManager
+) -> code_ir.CodegenNode:
   if typ in _BUILTIN_TYPE_MAP:
     return code_ir.BuiltinReference(code_ir.Name(_BUILTIN_TYPE_MAP[typ]))
   else:
-    # TODO(b/293352960): import typing.Any correctly.
     # TODO(b/293509806): Handle more types, especially from function return
     # signatures.
-    return code_ir.BuiltinReference(code_ir.Name("Any"))
+    return _any_annotation(import_manager)
 
 
 def get_type_annotation(
@@ -60,7 +70,9 @@ def get_type_annotation(
       if isinstance(signature.return_annotation, type) and (
           signature.return_annotation is not inspect.Signature.empty
       ):
-        sub_type = _get_annotation_from_type(signature.return_annotation)
+        sub_type = _get_annotation_from_type(
+            signature.return_annotation, import_manager
+        )
       else:
         return buildable_type
     return code_ir.ParameterizedTypeExpression(buildable_type, [sub_type])
@@ -93,19 +105,18 @@ def get_type_annotation(
     ):
       key_annotation = key_annotations[0]
     else:
-      # TODO(b/293352960): import typing.Any correctly.
-      key_annotation = code_ir.BuiltinReference(code_ir.Name("Any"))
+      key_annotation = _any_annotation(import_manager)
     if value_annotations and all(
         annotation == value_annotations[0] for annotation in value_annotations
     ):
       value_annotation = value_annotations[0]
     else:
-      value_annotation = code_ir.BuiltinReference(code_ir.Name("Any"))
+      value_annotation = _any_annotation(import_manager)
     return code_ir.ParameterizedTypeExpression(
         base_expression, [key_annotation, value_annotation]
     )
   else:
-    return _get_annotation_from_type(type(value))
+    return _get_annotation_from_type(type(value), import_manager)
 
 
 def add_return_types(task: code_ir.CodegenTask) -> None:
